@@ -26,10 +26,7 @@ Emit == PrintT(ToJson([k |-> "beh", base |-> Base, par |-> par, wt |-> wt, txin 
 
 RInit == XInit /\ acts = <<>> /\ outs = <<>>
 RPick == Pick /\ UNCHANGED <<acts, outs>>
-\* what a delivery does depends on delivered \cup B only: export one batch per value of it (the
-\* new headers), and the re-delivery of one known header for the moves between tied chains
 RDeliver == \E B \in SUBSET Hashes :
-              /\ B \cap delivered = {} \/ Cardinality(B) = 1
               /\ Deliver(B)
               /\ acts' = Append(acts, [a |-> "D", B |-> B, chain |-> chain', ops |-> lastops'])
               /\ IF pend' = <<>> THEN outs' = Append(outs, Obs) /\ Emit ELSE outs' = outs
@@ -46,11 +43,12 @@ RMempool == \E t \in Txs :
               /\ outs' = Append(outs, Obs) /\ Emit
 RSendOk == \E a \in SendAmts : \E X \in SendChoices(ws, lbi, a) :
               /\ SendOkX(a, X)
-              /\ acts' = Append(acts, [a |-> "S", amt |-> a, ok |-> TRUE, X |-> X, change |-> SumVal(X) - a - Fee])
+              /\ acts' = Append(acts, [a |-> "S", amt |-> a, ok |-> TRUE, X |-> X, change |-> SumVal(X) - a - Fee,
+                                      allowed |-> TLCEval(SendChoices(ws, lbi, a))])
               /\ outs' = Append(outs, Obs) /\ Emit
 RSendFail == \E a \in SendAmts :
               /\ SendFail(a)
-              /\ acts' = Append(acts, [a |-> "S", amt |-> a, ok |-> FALSE, X |-> {}, change |-> 0])
+              /\ acts' = Append(acts, [a |-> "S", amt |-> a, ok |-> FALSE, X |-> {}, change |-> 0, allowed |-> {}])
               /\ outs' = Append(outs, Obs) /\ Emit
 RRewind == \E i \in Base..(Base + N) :
               /\ Rewind(i)
